@@ -12,6 +12,7 @@ import (
 	"strconv"
 	"strings"
 	"sync"
+	"sync/atomic"
 	"syscall"
 	"time"
 
@@ -287,9 +288,12 @@ func (h *RunHarness) onRead(e *Env, name string) (int, error, bool) {
 
 // realisticErr: what a failing sysfs / file access really returns - a *PathError around an errno (which one varies:
 // the attribute is gone for a moment, the bus does not answer, the driver is busy ...)
+var errnoCounter atomic.Int64
+
 func realisticErr(op, name string, k int) error {
 	errnos := []syscall.Errno{syscall.ENOENT, syscall.EIO, syscall.ENODATA, syscall.EBUSY, syscall.ENODEV, syscall.EAGAIN, syscall.ENXIO, syscall.EACCES}
-	return &os.PathError{Op: op, Path: "/sys/class/hwmon/hwmonX/" + name, Err: errnos[k%len(errnos)]}
+	_ = k
+	return &os.PathError{Op: op, Path: "/sys/class/hwmon/hwmonX/" + name, Err: errnos[int(errnoCounter.Add(1)-1)%len(errnos)]}
 }
 
 // onWrite is called under the Env mutex for every register write: it logs the write and applies
